@@ -287,7 +287,8 @@ func rulesC10(c *Ctx) {
 				}
 			}
 		}
-		c.Need(scan != nil && len(inserts) == 2, "servePOST: duplicate scan and two insertions")
+		c.Need(len(inserts) == 2, "servePOST: two insertions (stream table, request routing table)")
+		c.Must(scan != nil, "servePOST:dup-scan-with-registration", sp, inserts[0], "servePOST looks the POST's call ids up in requestStreams itself, in the critical section that registers them: a test made elsewhere (in a helper with its own lock section, or not at all) lets two POSTs with one id both pass it and overwrite each other's routing entry")
 		sv := g.VertexOf(scan)
 		c.Check(sp.heldLocal(scan)[lkConn], "servePOST:dup-scan-under-lock", sp, scan, "the duplicate-id scan runs under c.mu")
 		for i, w := range inserts {
